@@ -3,9 +3,10 @@
 T=${1:-quick}; shift
 IDS=${@:-C01 C02 C03 C04 C05 C06 C07 C08 C09 C10 C11 C12 C13 C14 C15 C16 C17 C18 C19 C20}
 for i in $IDS; do
-  s=$(date +%s)
-  python3 vp/check.py $i --tier $T > /tmp/run_all_$i.log 2>&1; rc=$?
+  s=$(date +%s); L=$(mktemp /tmp/run_all_${i}_XXXXXX.log)
+  python3 vp/check.py $i --tier $T > $L 2>&1; rc=$?
   e=$(date +%s)
-  echo "$i tier=$T rc=$rc wall=$((e-s))s $(grep -E 'violations=' /tmp/run_all_$i.log | tail -1 | cut -c1-240)"
-  grep -E "VIOLATION|KNOWN-FINDING|HARNESS-ERROR|Traceback" /tmp/run_all_$i.log | head -5
+  echo "$i tier=$T rc=$rc wall=$((e-s))s $(grep -E 'violations=' $L | tail -1 | cut -c1-240)"
+  grep -E "VIOLATION|KNOWN-FINDING|HARNESS-ERROR|Traceback" $L | head -5
+  rm -f $L
 done
